@@ -42,6 +42,7 @@ from happysimulator.components.industrial.reneging import RenegingQueuedResource
 from happysimulator.components.industrial.shift_schedule import Shift, ShiftedServer, ShiftSchedule
 from happysimulator.components.queue import Queue
 from happysimulator.components.queue_driver import QueueDriver
+from happysimulator.components.queue_policies import AdaptiveLIFO, CoDelQueue, DeadlineQueue
 from happysimulator.components.queue_policy import FIFOQueue, LIFOQueue, PriorityQueue, QueuePolicy
 from happysimulator.components.queued_resource import QueuedResource
 from happysimulator.components.server.concurrency import (
@@ -68,6 +69,14 @@ def _tag(ev):
 
 def key_prio(ev):
     return ev.context["metadata"]["prio"]
+
+
+def key_deadline(ev):
+    """Deadline of a request = the instant it was created + its ``prio`` attribute in ticks."""
+    return ev.context["created_at"] + float(ev.context["metadata"]["prio"])
+
+
+ADAPTIVE_THR = 2
 
 
 class Script:
@@ -106,6 +115,7 @@ class Obs:
         self.ever_waited = []  # entity pipelines: tags that had to queue, in queue order
         self.discard_reported = False
         self.clauses_failed = set()
+        self.lowered = set()  # ticks at which the harness LOWERED a limit
         self.sunk_seq = []  # tags in the order their completions arrived downstream
 
     def now(self):
@@ -183,7 +193,40 @@ class Obs:
         if k == "Priority":
             best = min(w, key=lambda g: (self.meta[g]["prio"], w.index(g)))
             return [best]
+        if k == "Deadline":
+            now = self.now()
+            live = [g for g in w if self.deadline(g) >= now]
+            return [min(live, key=lambda g: (self.deadline(g), w.index(g)))] if live else []
+        if k == "Adaptive":
+            if len(w) > ADAPTIVE_THR:
+                return [w[-1]]
+            if len(w) < ADAPTIVE_THR:
+                return [w[0]]
+            return [w[0], w[-1]]  # the boundary is documented both ways
+        if k == "CoDel":
+            return [w[0]]
         return list(w)
+
+    def deadline(self, tag):
+        return self.arr_times[tag] + self.meta[tag]["prio"]
+
+    def on_policy_drop(self, n):
+        """The policy discarded ``n`` accepted items on its own (expired deadline / CoDel) and counted them
+        in its public stats: they end as 'rejected-and-counted'."""
+        t = self.now()
+        w = self.waiting
+        if self.policy_kind == "Deadline":
+            victims = sorted(w, key=lambda g: (self.deadline(g), w.index(g)))[:n]
+            early = [g for g in victims if self.deadline(g) >= t]
+            if early:
+                self.v("accepted-item-discarded", f"at t={t} the deadline queue dropped tag(s) {early} as expired "
+                                                  f"although their deadlines {[self.deadline(g) for g in early]} "
+                                                  f"had not passed")
+        else:
+            victims = list(w[:n])
+        for g in victims:
+            w.remove(g)
+            self.other.setdefault(g, []).append(t)
 
     # -- worker / sink callbacks --------------------------------------------
     def on_start(self, tag):
@@ -230,10 +273,24 @@ class Tap(QueuePolicy):
         self._obs.on_push(item, r)
         return r
 
+    def policy_drops(self):
+        """Items the wrapped policy discarded by itself, from its public stats (None = it never does)."""
+        st = getattr(self._inner, "stats", None)
+        for name in ("expired", "dropped"):
+            if hasattr(st, name):
+                return getattr(st, name)
+        return None
+
     def pop(self):
+        before = self.policy_drops()
         it = self._inner.pop()
+        n = (self.policy_drops() - before) if before is not None else 0
+        if n and self._obs.policy_kind == "Deadline":
+            self._obs.on_policy_drop(n)  # expired entries are purged before the live head is handed out
         if it is not None:
             self._obs.on_pop(it)
+        if n and self._obs.policy_kind != "Deadline":
+            self._obs.on_policy_drop(n)  # CoDel drops head-of-line items behind the one it hands out
         return it
 
     def peek(self):
@@ -284,8 +341,14 @@ class Knob(Entity):
         return self.fn(event.context["metadata"]["arg"])
 
 
-def make_policy(kind, cap):
+def make_policy(kind, cap, obs=None):
     c = INF if cap is None else cap
+    if kind == "Deadline":
+        return DeadlineQueue(get_deadline=key_deadline, capacity=cap, clock_func=lambda: obs.clock.now)
+    if kind == "Adaptive":
+        return AdaptiveLIFO(congestion_threshold=ADAPTIVE_THR, capacity=cap)
+    if kind == "CoDel":
+        return CoDelQueue(target_delay=1.0, interval=1.0, capacity=cap, clock_func=lambda: obs.clock.now)
     if kind == "FIFO":
         return FIFOQueue(capacity=c)
     if kind == "LIFO":
@@ -495,6 +558,7 @@ class PipeServer(Pipe):
         m = cfg["model"]
         conc = cfg["conc"]
         self.knob = None
+        self.tap = None
         if m == "int":
             model = conc
         elif m == "fixed":
@@ -512,26 +576,42 @@ class PipeServer(Pipe):
             self.tapped = False
             kw["queue_capacity"] = cfg["cap"]
         else:
-            kw["queue_policy"] = Tap(make_policy(cfg["policy"], cfg["cap"]), obs)
+            self.tap = Tap(make_policy(cfg["policy"], cfg["cap"], obs), obs)
+            kw["queue_policy"] = self.tap
         self.server = Server("server", concurrency=model, service_time=self.svc, downstream=sink, **kw)
         self.entry = self.server
         self.entities = [self.server]
         if m == "dynamic" and cfg.get("knob"):
-            self.knob = Knob("knob", lambda arg: self.server.concurrency_model.set_limit(arg), obs)
+            def set_limit(arg):
+                before = self.server.concurrency
+                self.server.concurrency_model.set_limit(arg)
+                if self.server.concurrency < before:
+                    obs.lowered.add(obs.now())
+
+            self.knob = Knob("knob", set_limit, obs)
             self.entities.append(self.knob)
+            # the limit change travels through 0..3 zero-delay forwarders too, so it can land between
+            # the queue's dequeue and the worker's receipt of a request on the same instant
+            self.knob_entry = self.knob
+            for j in range(cfg.get("knob_hops", 0)):
+                self.knob_entry = Fwd(f"knobfwd{j}", self.knob_entry)
+                self.entities.append(self.knob_entry)
 
     def make_extra_events(self):
         if self.knob is None:
             return []
-        return [Event(time=Instant.from_seconds(t), event_type="SetLimit", target=self.knob,
+        return [Event(time=Instant.from_seconds(t), event_type="SetLimit", target=self.knob_entry,
                       context={"metadata": {"arg": lim}}) for (t, lim) in self.cfg["knob"]]
 
     def snap(self):
         s = self.server
         st = s.stats
-        return dict(waiting=s.depth, in_service=s.active_requests, rejected=s.stats_dropped,
-                    accepted=s.stats_accepted, completed=st.requests_completed, discarded=st.requests_rejected,
-                    limit=s.concurrency)
+        d = dict(waiting=s.depth, in_service=s.active_requests, rejected=s.stats_dropped,
+                 accepted=s.stats_accepted, completed=st.requests_completed, discarded=st.requests_rejected,
+                 limit=s.concurrency)
+        if self.tapped and self.tap.policy_drops() is not None:
+            d["policy_drops"] = self.tap.policy_drops()
+        return d
 
     def limit_now(self):
         return self.server.concurrency
@@ -925,6 +1005,21 @@ def check_boundary(p, t_prev, final):
         if "reneged" in s and s["reneged"] != len(o.other):
             o.v("counters", f"{when}: reneged counter={s['reneged']} but {len(o.other)} items reached the "
                             f"reneged target", t_prev)
+        if "policy_drops" in s and s["policy_drops"] != len(o.other):
+            o.v("counters", f"{when}: the queue policy counts {s['policy_drops']} expired/dropped items but "
+                            f"{len(o.other)} accepted items left the queue that way ({sorted(o.other)})", t_prev)
+        if not p.own_worker:
+            ghost = [g for g in o.sunk if g not in o.popped]
+            if ghost:
+                o.v("not-exactly-one-state", f"{when}: tag(s) {ghost} completed downstream although the queue never "
+                                             f"released them (still waiting: {waiting})", t_prev)
+            if s["in_service"] is not None and p.cfg.get("model") != "weighted":
+                real = len(in_service) - (s["discarded"] or 0)
+                if real != s["in_service"]:
+                    o.v("not-exactly-one-state",
+                        f"{when}: {len(in_service)} requests were released by the queue and have not completed, "
+                        f"{s['discarded']} of them counted as rejected: {real} are in service, but the server "
+                        f"reports {s['in_service']} (limit {s['limit']})", t_prev)
         if s["discarded"]:
             if not o.discard_reported:
                 o.discard_reported = True
@@ -934,7 +1029,8 @@ def check_boundary(p, t_prev, final):
                     f"{when}: the server counts {s['discarded']} request(s) rejected AFTER its queue had accepted "
                     f"and released them (released and not completed: {lost}; in service: {s['in_service']}"
                     + (f"; weights {[o.meta[g].get('weight', 1) for g in lost]}" if heavy else "") + ")", t_prev,
-                    shape="item-heavier-than-one-unit" if heavy else None)
+                    shape=("item-heavier-than-one-unit" if heavy else
+                           "limit-lowered-on-dispatch-instant" if t_prev in o.lowered else None))
         elif not p.own_worker and s["in_service"] is not None:
             units = p.in_service_units(in_service)
             if units != s["in_service"]:
